@@ -42,6 +42,35 @@ func tablesOf(stmts []parser.Statement) []string {
 	return out
 }
 
+// asNamesOf: the names the source chose itself with `as` (only generated names are promised to be unique).
+func asNamesOf(stmts []parser.Statement) []string {
+	out := []string{}
+	var visit func(t *parser.TabularExpr)
+	visit = func(t *parser.TabularExpr) {
+		if t == nil {
+			return
+		}
+		for _, op := range t.Operators {
+			switch op := op.(type) {
+			case *parser.AsOperator:
+				if op != nil && op.Name != nil {
+					out = append(out, op.Name.Name)
+				}
+			case *parser.JoinOperator:
+				if op != nil {
+					visit(op.Right)
+				}
+			}
+		}
+	}
+	for _, s := range stmts {
+		if t, ok := s.(*parser.TabularExpr); ok {
+			visit(t)
+		}
+	}
+	return out
+}
+
 // statementShape: the clauses of C05 that need no reader.
 func statementShape(sql string, toks []sTok) string {
 	if msg := lexableSQL(toks); msg != "" {
@@ -150,7 +179,7 @@ func (pw *planWriter) record(prop, fam, text string, tab any, extra any, mustCom
 	if tab != nil {
 		tabRec = withPrintFlags(tab)
 	}
-	pw.te.Encode(map[string]any{"id": pw.id, "fam": fam, "tab": tabRec, "tables": tablesOf(stmts), "sql": sqlTokensJSON(toks)})
+	pw.te.Encode(map[string]any{"id": pw.id, "fam": fam, "tab": tabRec, "tables": tablesOf(stmts), "user": asNamesOf(stmts), "sql": sqlTokensJSON(toks)})
 	pw.se.Encode(map[string]any{"id": pw.id, "b64": b64(text), "sql": sql, "extra": extra, "fam": fam})
 	if pw.id%499 == 1 {
 		res.sample(map[string]any{"pql": text, "sql": sql})
@@ -278,7 +307,7 @@ func cmdPlanTraceCheck(a args) {
 				reason := map[string]string{
 					"unreadable":           "the output does not read as [WITH name AS (select), ...] select;",
 					"precedence-dependent": "the output reads differently under the ClickHouse and the standard precedence table",
-					"malformed":            "a FROM/JOIN reads something that is neither a table of the source nor an earlier CTE, a CTE name repeats, or a CTE is unused",
+					"malformed":            "a FROM/JOIN reads something that is neither a table of the source nor an earlier CTE, a generated CTE name repeats, or a CTE is unused",
 				}[v.Why]
 				res.violate(Violation{Property: "C05", Kind: "statement_" + v.Why, InputB64: r.B64, Extra: extra, Observed: r.SQL, Reason: reason})
 				if prop != "C05" {
